@@ -66,6 +66,12 @@ pub open spec fn tmp_ok(w: World, factory: Seq<char>, infos: [AssetInfo; 2], t: 
         /*[C14,C16 create.frame]*/ final(deps.storage).config == old(deps.storage).config && final(deps.storage).pairs@ == old(deps.storage).pairs@ && final(deps.storage).allow@ == old(deps.storage).allow@,
         /*[C07,C16 create.only-instantiate]*/ r is Ok ==> r->Ok_0.messages@.len() == 1 && r->Ok_0.messages@[0].reply_on == ReplyOn::Success
             && (r->Ok_0.messages@[0].msg matches CosmosMsg::Wasm(WasmMsg::Instantiate { admin, code_id, msg, funds, label }) && code_id == old(deps.storage).config->Some_0.pair_code_id && funds@.len() == 0),
+        /*[C16,C17 create.pair-told-recorded-values]*/ r is Ok ==> (r->Ok_0.messages@[0].msg matches CosmosMsg::Wasm(WasmMsg::Instantiate { admin, code_id, msg, funds, label }) &&
+            exists|cr: Decimal256| #![trigger bin_of(PairInstantiateMsg { asset_infos, token_code_id: old(deps.storage).config->Some_0.token_code_id, asset_decimals: final(deps.storage).tmp->Some_0.asset_decimals, requirements, commission_rate: cr,
+                    lp_token_info: LPTokenInfo { lp_token_name: lp_token_info.lp_token_name, lp_token_symbol: lp_token_info.lp_token_symbol, lp_token_decimals: lp_token_info.lp_token_decimals } })]
+                (commission_rate is Some ==> cr == commission_rate->Some_0) && (commission_rate is None ==> cr.0.v() == 3_000_000_000_000_000nat)
+                && msg == bin_of(PairInstantiateMsg { asset_infos, token_code_id: old(deps.storage).config->Some_0.token_code_id, asset_decimals: final(deps.storage).tmp->Some_0.asset_decimals, requirements, commission_rate: cr,
+                    lp_token_info: LPTokenInfo { lp_token_name: lp_token_info.lp_token_name, lp_token_symbol: lp_token_info.lp_token_symbol, lp_token_decimals: lp_token_info.lp_token_decimals } })),
 //%end
 
 pub open spec fn registered_record(w: World, t: TmpPairInfo, pair: Seq<char>, rec: PairInfoRaw) -> bool {
